@@ -1,6 +1,78 @@
 -------------------------------- MODULE JC10 --------------------------------
-(* C10 — contract of the recorded events of this property (stub).           *)
+(* C10 - modular inversion and gcd: invertibility decided exactly, results   *)
+(* exact.                                                                   *)
+(*                                                                          *)
+(* op = "inv":   a, m (modulus, m >= 1), bits (operand width).              *)
+(*   sg = 1 : a is the two's-complement pattern of a signed Int of `bits`.  *)
+(*   adj    : adjuster A of a SafeGcdInverter (0 <= A < m): the documented  *)
+(*            result is A / a (mod m); absent = 1.                          *)
+(*   For the Montgomery forms a is the integer converted into the form and  *)
+(*   x the integer retrieved from the inverse ("the retrieved values        *)
+(*   multiply to 1").                                                       *)
+(*   Outcome: ok with x exactly when gcd(|a|, m) = 1, and then              *)
+(*   a * x = A (mod m), and 0 <= x < m when m >= 2; none otherwise.         *)
+(*   m = 1: the statement leaves x free (every x satisfies the congruence   *)
+(*   and the range clause is stated for m >= 2 only; the crate returns      *)
+(*   x = 1 = m for Uint::inv_mod(1, 1)); x must fit the width.  The         *)
+(*   recorder keeps the m = 1 family small for that reason.                 *)
+(*   xp (boxed) = operand precision.                                        *)
+(* op = "inv2k": a, kk (0 <= kk <= bits), bits.  ok(x) exactly when kk = 0  *)
+(*   or a is odd; then a * x = 1 (mod 2^kk) and x < 2^kk for kk >= 1        *)
+(*   (kk = 0 is the modulus 1 again: x free).                               *)
+(* op = "gcd":   a, b, bits; sa / sb = 1 : signed patterns.  ok(g) with     *)
+(*   g = gcd(|a|, |b|) (gcd(0, 0) = 0); gp (boxed) = operand precision.     *)
+(* A zero modulus is never recorded (it belongs to C11).                    *)
 EXTENDS BigNat
 
-JudgeC10(e, rg) == FALSE
+C10Has(e, f) == f \in DOMAIN e
+C10Flag(e, f) == C10Has(e, f) /\ e[f] = 1
+
+\* signed reading of a pattern: [neg, mag]
+C10Val(x, signed, bits) == IF signed THEN SVal(x, bits) ELSE [neg |-> FALSE, mag |-> x]
+
+C10Inv(e) ==
+  LET A   == C10Val(e.a, C10Flag(e, "sg"), e.bits)
+      m   == e.m
+      tgt == IF C10Has(e, "adj") THEN Mod(e.adj, m) ELSE Mod(One, m)
+      cop == Gcd(A.mag, m) = One
+  IN IF ~cop THEN e.k = "none"
+     ELSE /\ e.k = "ok"
+          /\ C10Has(e, "x")
+          /\ Fits(e.x, e.bits)
+          /\ Ge(m, Two) => Lt(e.x, m)
+          /\ IF A.neg THEN Mod(Add(Mul(A.mag, e.x), tgt), m) = Zero       \* -|a| x = A  <=>  |a| x + A = 0
+                      ELSE Mod(Mul(A.mag, e.x), m) = tgt
+          /\ C10Has(e, "xp") => e.xp = e.bits
+
+C10Inv2k(e) ==
+  IF e.kk = 0 \/ IsOdd(e.a)
+    THEN /\ e.k = "ok"
+         /\ C10Has(e, "x")
+         /\ Fits(e.x, e.bits)
+         /\ e.kk >= 1 => Fits(e.x, e.kk)
+         /\ Mod2k(Mul(e.a, e.x), e.kk) = Mod2k(One, e.kk)
+         /\ C10Has(e, "xp") => e.xp = e.bits
+    ELSE e.k = "none"
+
+C10Gcd(e) ==
+  LET A == C10Val(e.a, C10Flag(e, "sa"), e.bits)
+      B == C10Val(e.b, C10Flag(e, "sb"), e.bits)
+  IN /\ e.k = "ok"
+     /\ C10Has(e, "g")
+     /\ e.g = Gcd(A.mag, B.mag)
+     /\ C10Has(e, "gp") => e.gp = e.bits
+
+JudgeC10(e, rg) ==
+  CASE e.op = "inv" ->
+         /\ C10Has(e, "a") /\ C10Has(e, "m") /\ C10Has(e, "bits") /\ C10Has(e, "k")
+         /\ e.m # Zero /\ Fits(e.a, e.bits) /\ Fits(e.m, e.bits)
+         /\ C10Inv(e)
+    [] e.op = "inv2k" ->
+         /\ C10Has(e, "a") /\ C10Has(e, "kk") /\ C10Has(e, "bits") /\ C10Has(e, "k")
+         /\ e.kk >= 0 /\ e.kk <= e.bits
+         /\ C10Inv2k(e)
+    [] e.op = "gcd" ->
+         /\ C10Has(e, "a") /\ C10Has(e, "b") /\ C10Has(e, "bits") /\ C10Has(e, "k")
+         /\ C10Gcd(e)
+    [] OTHER -> FALSE
 =============================================================================
